@@ -392,6 +392,10 @@ class ReadModifyWriteRequestPacket(SendUnitDataRequestPacket):
         ]
 
 
+# general statuses of a Multiple Service Packet reply that carry member replies: success, partial, embedded service error
+_MULTI_REPLY_STATUSES = (SUCCESS, 0x06, 0x1E)
+
+
 class MultiServiceResponsePacket(SendUnitDataResponsePacket):
     __log = logging.getLogger(f"{__module__}.{__qualname__}")
 
@@ -405,7 +409,7 @@ class MultiServiceResponsePacket(SendUnitDataResponsePacket):
     def _parse_reply(self):
         super()._parse_reply()
         try:
-            if not self.data or self.command_status != SUCCESS:
+            if not self.data or self.command_status != SUCCESS or self.service_status not in _MULTI_REPLY_STATUSES:
                 return  # refused, empty or failed at the encapsulation layer: no member replies, the wrapper's status applies
             num_replies = UINT.decode(self.data)
             offset_data = self.data[2 : 2 + 2 * num_replies]
